@@ -18,7 +18,7 @@ PRED_PROP = {
     "C13.LockCount": "C13", "C13.DirExactWhenQuiet": "C13", "C13.NoLeak": "C13",
     "C11.GraphWellFormed": "C11", "C11.ReferencedMirrors": "C11", "C11.RejectIsNoop": "C11", "C11.Applied": "C11",
     "C09.FlagsMatchJobs": "C09", "C09.Stuck": "C09",
-    "C12.TagsKept": "C12", "C12.StreamsKept": "C12", "C12.Converges": "C12", "C12.ConvergesCorrect": "C12",
+    "C12.TagsKept": "C12", "C12.SettingsKept": "C12", "C12.StreamsKept": "C12", "C12.Converges": "C12", "C12.ConvergesCorrect": "C12",
     "C16.ConvFresh": "C16", "C16.ConvFreshAtRest": "C16", "C16.ConvEventually": "C16", "C16.DetachStops": "C16",
 }
 
@@ -28,6 +28,7 @@ def mc_config(name, consts, invariants, spec="MCSpec", props=None):
     consts = dict(consts)
     consts.setdefault("Crashes", "FALSE")
     consts.setdefault("Restarts", "FALSE")
+    consts.setdefault("Extra", "{}")
     for k, v in consts.items():
         lines.append("  %s = %s" % (k, v))
     props = list(props or []) + [i.split(":", 1)[1] for i in invariants if i.startswith("PROPERTY:")]
@@ -101,6 +102,16 @@ def to_schedule(sid, hist, convs=(), settle=True):
             st["cut"] = e.get("cut", 0)
         if e["a"] == "ConvReset":
             st["convs"] = list(e["convs"])
+        if e["a"] == "UpdName":
+            st["name"] = e["name"]
+            st["new"] = e["v"]
+        if e["a"] == "UpdColor":
+            st["name"] = e["name"]
+            st["color"] = e["what"]
+        if e["a"] in ("AddHook", "DelHook", "AddEndpoint", "DelEndpoint"):
+            st["what"] = e["what"]
+        if e["a"] == "SetConfig":
+            st["k"] = e["k"]
         if e["a"] == "ViewConvert":
             st["convs"] = list(e["convs"])
             st["v"] = e["v"]
@@ -213,9 +224,10 @@ GEN = {
     "C06": ({"TagNames": '{"tag/a", "tag/b", "mark/m"}', "ConvNames": "{}", "MaxCalls": 7, "MaxViews": 1, "Menu": '"tags"', "Invalid": "FALSE"}, 44),
     "C09": ({"TagNames": '{"tag/a", "tag/b", "mark/m"}', "ConvNames": "{}", "MaxCalls": 6, "MaxViews": 1, "Menu": '"tags"', "Invalid": "FALSE"}, 40),
     "C10": ({"TagNames": '{"tag/a"}', "ConvNames": "{}", "MaxCalls": 7, "MaxViews": 3, "Menu": '"files"', "Invalid": "FALSE"}, 40),
-    "C11": ({"TagNames": '{"tag/a", "tag/b", "mark/m"}', "ConvNames": "{}", "MaxCalls": 12, "MaxViews": 0, "Menu": '"tags"', "Invalid": "TRUE"}, 34),
+    "C11": ({"TagNames": '{"tag/a", "tag/b", "mark/m"}', "ConvNames": "{}", "MaxCalls": 12, "MaxViews": 0, "Menu": '"tags"', "Invalid": "TRUE", "Extra": '{"rename", "color"}'}, 34),
     "C13": ({"TagNames": '{"tag/a"}', "ConvNames": "{}", "MaxCalls": 8, "MaxViews": 3, "Menu": '"files"', "Invalid": "FALSE"}, 40),
-    "C12": ({"TagNames": '{"tag/a", "tag/b", "mark/m"}', "ConvNames": '{"cv"}', "MaxCalls": 10, "MaxViews": 1, "Menu": '"conv"', "Invalid": "FALSE", "Crashes": "TRUE"}, 46),
+    "C12": ({"TagNames": '{"tag/a", "tag/b", "mark/m"}', "ConvNames": '{"cv"}', "MaxCalls": 12, "MaxViews": 1, "Menu": '"conv"', "Invalid": "FALSE", "Crashes": "TRUE",
+             "Restarts": "TRUE", "Extra": '{"rename", "color", "settings"}'}, 50),
     "C16": ({"TagNames": '{"tag/a", "tag/b", "mark/m"}', "ConvNames": '{"cv"}', "MaxCalls": 10, "MaxViews": 1, "Menu": '"conv"', "Invalid": "FALSE", "Crashes": "TRUE"}, 48),
 }
 CONVS = {"C16": ["cv"], "C12": ["cv"]}
@@ -232,13 +244,22 @@ MC = {
     "C10": [("files", {"TagNames": '{"tag/a"}', "ConvNames": "{}", "MaxCalls": 3, "MaxViews": 2, "Menu": '"files"', "Invalid": "FALSE"},
              ["ViewComplete", "OneIdPerConn"])],
     "C11": [("calls", {"TagNames": '{"tag/a", "mark/m"}', "ConvNames": "{}", "MaxCalls": 3, "MaxViews": 0, "Menu": '"tags"', "Invalid": "TRUE"},
-             ["GraphWellFormed"])],
+             ["GraphWellFormed"]),
+            # rename / colour: a rename moves the tag record and the reverse references; a job in flight for the old name is dropped
+            ("rename", {"TagNames": '{"tag/a", "tag/b"}', "ConvNames": "{}", "MaxCalls": 3, "MaxViews": 0, "Menu": '"tags"', "Invalid": "TRUE",
+                        "Extra": '{"rename", "color"}'},
+             ["GraphWellFormed", "NeverStale", "NeverStuck", "FlagsMatchJobs"])],
     "C13": [("files", {"TagNames": '{"tag/a"}', "ConvNames": "{}", "MaxCalls": 3, "MaxViews": 2, "Menu": '"files"', "Invalid": "FALSE"},
              ["NoUseAfterFree", "Balanced", "DirExactWhenQuiet", "NoLeak"])],
     # C12: the process may be killed between any two steps and restarted (Restart action of Manager.tla), then anything may follow
     "C12": [("restart", {"TagNames": '{"tag/a"}', "ConvNames": '{"cv"}', "MaxCalls": 3, "MaxViews": 0, "Menu": '"conv"', "Invalid": "FALSE", "Restarts": "TRUE"},
              ["MCViewComplete", "NameOrderIsServeOrder", "NeverStale", "Balanced", "NoUseAfterFree", "GraphWellFormed", "NeverStuck",
-              "FlagsMatchJobs", "OneIdPerConn", "ConvEventually", "PROPERTY:StreamsKeptProp"])],
+              "FlagsMatchJobs", "OneIdPerConn", "ConvEventually", "PROPERTY:StreamsKeptProp"]),
+            # settings (webhooks, endpoints, config) and colours are part of what a restart must show (StreamsKeptStep)
+            ("restart-settings", {"TagNames": '{"tag/a"}', "ConvNames": "{}", "MaxCalls": 4, "MaxViews": 0, "Menu": '"files"', "Invalid": "FALSE",
+                                  "Restarts": "TRUE", "Extra": '{"settings", "color"}'},
+             ["MCViewComplete", "NameOrderIsServeOrder", "NeverStale", "Balanced", "NoUseAfterFree", "NeverStuck", "FlagsMatchJobs",
+              "OneIdPerConn", "PROPERTY:StreamsKeptProp"])],
     "C16": [("conv", {"TagNames": '{"tag/a"}', "ConvNames": '{"cv"}', "MaxCalls": 3, "MaxViews": 0, "Menu": '"conv"', "Invalid": "FALSE"},
              ["ConvFreshAtRest", "ConvEventually", "NeverStuck", "FlagsMatchJobs"])],
 }
